@@ -204,6 +204,10 @@ fn run_line(st: &mut ReplState, line: &str) {
         OK
     } else {
         let res = st.xs.compile(&line).and_then(|_| st.xs.run());
+        if res.is_err() {
+            // the rest of a failed line is abandoned, the next line must not resume it
+            st.xs.abort_run();
+        }
         if st.trial.is_some() {
             st.update_xstate();
         }
